@@ -54,3 +54,8 @@ package compiler
 //@   ensures[len] len(c.bytecode) == old(len(c.bytecode)) + 1 + len(b)
 //@   ensures[opcode] c.bytecode[old(len(c.bytecode))] == op
 //@   ensures[located] has(c.locations, old(len(c.bytecode)))
+
+// package-level type constants: set once by the package initialiser, never assigned again
+//@ func compiler.init
+//@   property C15
+//@   ensures[basic-types] intType == rtype("int") && stringType == rtype("string")
